@@ -74,9 +74,29 @@ PROPS = {
    technique="deterministic simulation of the file layer with systematic crash-state enumeration (journal replay: write prefixes, torn writes, sector subsets) after seeded histories",
    extra=True,
    design_ref="DESIGN.md s4 C18, s3 E7"),
+ "C17": dict(engine="E6 loop", src="e6_loop", variants=["asan", "tsan"], level="exploration",
+   seconds={"quick": 50, "thorough": 700},
+   rule="cases = (one loop thread in io_service::run() on reactor epoll|poll|select + 1..4 producer threads issuing post / set_timer_event / cancel_timer_event / set_io_event / cancel_io_events (on the loop thread, or in 1/8 of runs directly cross-thread) / make-descriptor-ready / sleep, "
+        "+ 0..2 deadline_timer / stream_socket async_read / async_write chains driven on the loop thread against a peer thread that feeds/drains in pieces, with short reads/writes, EAGAIN, spurious readiness, EINTR; optionally stop() racing the producers) "
+        "or (cppcms::thread_pool with 1..4 workers and 1..4 threads posting / cancelling, jobs that throw, optional stop() race), each x a seeded schedule (random / PCT / run-to-block) and a simulated clock. "
+        "Every handler is a counting functor: invoked exactly once on the loop thread, timers not before their deadline, descriptor waits only with data present or with canceled/select_failed, jobs at most once and exactly once unless cancelled; all functor objects destroyed. "
+        "non-trivial = run with > 4 thread switches and >= 2 handlers; distinct = distinct schedule trace hash",
+   fault_keys=["eintr", "short_reads", "short_writes", "spurious_wakeups", "eagain", "loop_stop_race", "pool_stop_race", "pool_threw"],
+   probe_keys=["reactor_epoll", "reactor_poll", "reactor_select", "handlers_cancelled_or_error", "aread_ok", "aread_err", "awrite_ok", "awrite_err", "pool_cancelled", "xthread_cancelled_waits", "extra_cancel_rounds", "mutex_contended", "cv_waits", "strategy_pct", "strategy_random", "strategy_run_to_block"],
+   components={"real": ["booster::aio::io_service (event_loop_impl), reactor (epoll, poll, select back-ends), select_interrupter, deadline_timer, basic_io_device, stream_socket (async_read/async_write)", "cppcms::thread_pool", "real OS threads"],
+               "stub": ["kernel: sockets, pipes, epoll/poll/select readiness, short I/O and EINTR (sim/simk)", "clock", "thread scheduler"]},
+   assumptions=["only operations documented thread-safe are issued from foreign threads; device/timer objects are used on the loop thread; a timer id is cancelled at most once and not after its handler ran (documented contract)",
+                "the loop polls with a 0 ms timeout during the last millisecond before a timer: the simulated clock therefore always ticks (>= 1 us per scheduling step)",
+                "TSan variant: happens-before from the code's own pthread locks only (simulator uninstrumented)", "sampling of schedules, not enumeration"],
+   category="exploration",
+   text="Deterministic simulation of the real event loop, reactors, timers, sockets and worker pool on simulated descriptors and clock: a seeded scheduler decides every interleaving of producers against the loop; counting handlers decide exactly-once / right thread / right code; TSan and ASan watch the same runs.",
+   note="Trusts the simulated kernel's readiness semantics (level-triggered) and TSan; known finding xthread-cancel-io-lost is listed in known-findings.json.",
+   technique="deterministic simulation: seeded thread scheduler + simulated epoll/poll/select, sockets and clock under the real io_service/thread_pool; counting-handler oracle; TSan",
+   design_ref="DESIGN.md s4 C17, s3 E6"),
 }
 
 ENGINES = [
+ {"name": "E6 loop", "path": "harness/e6_loop.cpp", "serves_properties": ["C17"], "kind_free_text": "real io_service/reactors/timers/stream_socket/thread_pool on simulated descriptors, clock and scheduler"},
  {"name": "E7 crashfs", "path": "harness/e7_crashfs.cpp", "serves_properties": ["C18"], "kind_free_text": "real session_file_storage over the simulated disk; crash states enumerated from the write journal"},
  {"name": "E3 cache-conc", "path": "harness/e3_cache_conc.cpp", "serves_properties": ["C09"], "kind_free_text": "real threads on the real cache under the seeded scheduler; TSan/ASan + linearizability checker"},
  {"name": "E2 cache-seq", "path": "harness/e2_cache_seq.cpp", "serves_properties": ["C07", "C08"], "kind_free_text": "real cache back-ends + cache_interface vs sequential model under simulated clock (sim/simk)"},
